@@ -236,6 +236,34 @@ CLAIMED["C19"] = dict(
 PENDING_REASON = "check not built yet in this session (work in progress; see DESIGN.md section 4)"
 
 
+CLAIMED["C10"] = dict(
+    text=("Gallina model of diffing._apply_changes on a resolved diff (Diff.apply_changes: changes grouped in "
+          "phases, each change addresses a parent by path and edits one argument / key / index / callable / tag); "
+          "theorems about the frame of one change and of the phase order; evaluated in Coq on the changes the real "
+          "build_diff + resolve_diff_references produced for random (old, new) pairs and compared with the real "
+          "_apply_changes result. The alignment heuristics are not modelled: build_diff followed by apply_diff is "
+          "decided by a round-trip oracle (copy of old becomes equal to new in callables, arguments, tags and "
+          "sharing; the diff and new are not modified; the diff of a deep copy is empty)."),
+    note=COMMON_NOTE + " Construction of the diff (alignment by len(repr)) is validated by the oracle only. "
+         "Known finding: configurations with positional arguments are not supported by the differ.",
+    technique="Coq model of _apply_changes + vm_compute correspondence; round-trip oracle over labelled rewrites",
+    design="4/C10")
+
+CLAIMED["C11"] = dict(
+    text=("Mini-language of straight-line configuration programs with two Gallina semantics (Lang.eval with "
+          "cfg=false: running the function; cfg=true: what as_buildable computes through "
+          "SignatureInfo.signature_binding); theorem: building the configuration semantics yields a heap "
+          "isomorphic (values, types, sharing; partial objects up to argument binding) to the direct semantics. "
+          "Generated programs are written to real source files, decorated by the real auto_config, and both "
+          "results are compared with the two model semantics inside Coq; constructs outside the modelled core "
+          "(splats, nested auto_config functions, exempt, with_tags, arg_factory, closures, defaults, lambdas, "
+          "static/class methods, control flow) are generated at random and decided by the Python oracle."),
+    note=COMMON_NOTE + " The AST rewrite itself (ast.NodeTransformer, compile, closure cells) is exercised, not "
+         "modelled; CPython constant folding of tuple displays is written into the model programs by the harness.",
+    technique="Coq proof (two semantics related through build) + vm_compute correspondence on generated source programs",
+    design="4/C11")
+
+
 def main():
   props = [json.loads(l) for l in open(os.path.join(VERIF, "properties.jsonl"))]
   checks = []
